@@ -29,11 +29,30 @@ def do_call(ip, e, st):
         if any(k is None for k in kw_names):
             raise U("**kwargs call")
         for s2, vals in ip.ev_many(pos_exprs + [k.value for k in e.keywords], s):
+            if isinstance(f, NoneV) and not ip.spec_mode:
+                # calling None: TypeError ('NoneType' object is not callable) once the arguments have been evaluated
+                if ip.may_catch(s2, "TypeError"):
+                    ip.raise_(s2, "TypeError")
+                else:
+                    ip.emit("safety", "callee-is-callable", s2, FALSE)
+                continue
             pos = []
             for idx, v in enumerate(vals[:len(pos_exprs)]):
                 if idx in splice:
                     view = ip.as_view(s2, v)
                     if view.items is None:
+                        if isinstance(f, Fun) and f.kind == "lib" and getattr(f.impl, "star_view", False) and len(pos_exprs) == 1:
+                            # a library function whose contract is stated over the argument SEQUENCE (zip_longest(*its))
+                            from .lib_acc import StarView
+                            pos.append(StarView(view))
+                            continue
+                        k0 = getattr(f, "contract", None) if isinstance(f, Fun) else None
+                        alt = ip.contracts.by_key.get((k0.file, k0.qual + "#variadic")) if k0 is not None else None
+                        if alt is not None and len(pos_exprs) == 1 and not e.keywords:
+                            # f(*xs) with xs of symbolic length: the contract case that takes the argument list as ONE sequence
+                            f = Fun("contract", contract=alt)
+                            pos.append(v)
+                            continue
                         raise U("star-call with a sequence of symbolic length")
                     pos += view.items
                 else:
@@ -56,6 +75,15 @@ def call_value(ip, st, f, pos, kws, node=None):
     if k == "builtin":
         from .builtins_ import call_builtin
         return call_builtin(ip, st, f.name, pos, kws, node)
+    if k == "namedtuple":
+        # a collections.namedtuple class: the instance IS a tuple of its fields (equality, indexing, isinstance(.., tuple));
+        # the field names are kept for attribute access
+        names = list(f.fields)
+        if len(pos) > len(names) or any(kw not in names[len(pos):] for kw in kws) or len(pos) + len(kws) != len(names):
+            raise U("namedtuple %s called with the wrong arguments" % f.name)
+        t = Tup(list(pos) + [kws[n] for n in names[len(pos):]])
+        t.ntfields = names
+        return [(st, t)]
     if k == "exc":
         return [(st, ExcV(f.name, tuple(pos)))]
     if k == "lambda":
@@ -221,6 +249,10 @@ def conform(ip, st, v, ty):
         if isinstance(v, Ref) and isinstance(st.heap[v.cid], ValCell):
             return v
         raise Mismatch(ty)
+    if head == "KeyMap":
+        if isinstance(v, Ref) and type(st.heap[v.cid]).__name__ == "KeyMapCell" and not v.path:
+            return v
+        raise Mismatch(ty)
     if head == "Str":
         if isinstance(v, Str) and (not args or args[0].strip("'\"") == v.s):
             return v
@@ -264,6 +296,14 @@ def conform(ip, st, v, ty):
         raise Mismatch(ty)
     if head in ("Self", "Inst"):
         if isinstance(v, Ref) and isinstance(st.heap[v.cid], ObjCell):
+            # two ClassSpecs of the SAME real class that type a common field differently describe different objects
+            # (1-d / 2-d histogram, scale computed / not computed): such a case does not accept the object
+            want, have = ip.contracts.classes.get(args[0] if args else None), ip.contracts.classes.get(st.heap[v.cid].cls)
+            if want is not None and have is not None and want is not have \
+                    and (want.alias_of or want.name) == (have.alias_of or have.name):
+                for f, fty in want.fields.items():
+                    if f in have.fields and have.fields[f].replace(" ", "") != fty.replace(" ", ""):
+                        raise Mismatch("%s: field %s is %s in %s" % (ty, f, have.fields[f], have.name))
             return v
         raise Mismatch(ty)
     if head == "Fn":
@@ -389,6 +429,20 @@ def select_case(ip, st, c, args, kws):
     raise U("no contract case of %s accepts the arguments (%s)" % (c.name, last))
 
 
+def conform_arg(ip, st, v, ty, dry):
+    """conform() for an actual argument.  A list object the caller created with a concrete length (a display, a
+    comprehension over a concrete sequence) that is handed to a parameter of type Lst[T] keeps its identity: the very
+    cell changes to the symbolic-length representation (same items), so that `param is <that list>` clauses and the
+    callee's frame refer to the caller's object."""
+    r = conform(ip, st, v, ty)
+    if (not dry and isinstance(v, Ref) and not v.path and isinstance(st.heap.get(v.cid), PyListCell)
+            and isinstance(r, View) and getattr(r, "term", None) is not None and ty.strip().startswith("Lst[")
+            and (ip.entry is None or v.cid not in ip.entry.heap)):
+        st.heap[v.cid] = LstCell(r.term)
+        return v
+    return r
+
+
 def bind_contract_args(ip, st, c, args, kws, dry=False):
     vararg, kwarg = getattr(c, "vararg", None), getattr(c, "kwarg", None)
     names = [n for n in c.params.keys() if n not in (vararg, kwarg)]
@@ -398,12 +452,14 @@ def bind_contract_args(ip, st, c, args, kws, dry=False):
         if vararg is None:
             raise Mismatch("too many arguments for %s" % c.name)
     for n, v in zip(names, vals):
-        env[n] = conform(ip, st, v, c.params[n])
+        env[n] = conform_arg(ip, st, v, c.params[n], dry)
     for n in names[len(vals):]:
         if n in kws:
-            env[n] = conform(ip, st, kws[n], c.params[n])
+            env[n] = conform_arg(ip, st, kws[n], c.params[n], dry)
         elif n in c.defaults:
             env[n] = conform(ip, st, default_value(ip, c.defaults[n]), c.params[n])
+        elif ast_default(ip, c, n) is not None:
+            env[n] = conform(ip, st, ast_default(ip, c, n), c.params[n])
         else:
             raise Mismatch("missing argument %s of %s" % (n, c.name))
     if vararg is not None:
@@ -423,6 +479,30 @@ def bind_contract_args(ip, st, c, args, kws, dry=False):
         items = kw_conform(ip, st, extra, c.params[kwarg])
         env[kwarg] = None if dry else ip.new_cell(st, PyDictCell(items))
     return env
+
+
+def ast_default(ip, c, name):
+    """the default value the function's own `def` gives the parameter: a constant or a module-level sentinel (else None)"""
+    try:
+        from .contracts import find_function
+        mc = ip.world.modctx(c.file)
+        fn = find_function(mc.tree, c.qual)
+    except Exception:
+        return None
+    a = fn.args
+    names = [x.arg for x in a.args]
+    pairs = list(zip(names[len(names) - len(a.defaults):], a.defaults)) + \
+        [(k.arg, d) for k, d in zip(a.kwonlyargs, a.kw_defaults) if d is not None]
+    for n, d in pairs:
+        if n != name:
+            continue
+        if isinstance(d, ast.Constant) and (d.value is None or isinstance(d.value, (bool, int, float, str))):
+            return default_value(ip, d.value)
+        if isinstance(d, ast.Name):
+            v = mc.resolve(d.id, ip)
+            if isinstance(v, Sentinel):
+                return v
+    return None
 
 
 def kw_fields(ty):
@@ -482,6 +562,13 @@ def places_of(ip, st, env, text):
 
 def havoc_value(ip, st, v, name):
     """replace the content of a mutable value by fresh content of the same shape; returns the new SV for fields"""
+    if isinstance(v, Ref) and type(st.heap[v.cid]).__name__ == "StructLstCell":
+        from .histlib import struct_havoc       # ghost `out` of a generator yielding tuples
+        st.heap[v.cid] = struct_havoc(ip, st, st.heap[v.cid], name)
+        return v
+    if isinstance(v, Ref) and type(st.heap[v.cid]).__name__ == "KeyMapCell":
+        from .keymap import km_havoc
+        return km_havoc(ip, st, Ref(v.cid), name)
     if isinstance(v, Ref):
         cell = st.heap[v.cid]
         if isinstance(cell, LstCell):
@@ -524,9 +611,13 @@ def havoc_value(ip, st, v, name):
 def apply_contract(ip, st, c, args, kws):
     """caller side: check the precondition, havoc the frame, assume the postcondition; fork on declared raises"""
     if c.inline:
-        if c.qual in ("get_data_context",) and len(args) == 1 and isinstance(args[0], Opaque) and args[0].sort == "V":
+        if c.qual in ("get_data_context", "get_context", "get_data") and c.file.endswith("flow/functions.py") \
+                and len(args) == 1 and isinstance(args[0], Opaque) and args[0].sort == "V":
             from .lib import lib_get_data_context_v
-            return lib_get_data_context_v(ip, st, args, kws)
+            outs = lib_get_data_context_v(ip, st, args, kws)
+            if c.qual == "get_data_context":
+                return outs
+            return [(s2, pair.items[0] if c.qual == "get_data" else pair.items[1]) for s2, pair in outs]
         return inline_contract(ip, st, c, args, kws)
     case = select_case(ip, st, c, args, kws)
     try:
@@ -565,16 +656,38 @@ def apply_contract(ip, st, c, args, kws):
     st.assume(AND(*normal_conds))
     env2 = dict(env)
     do_havoc(ip, st, case, env2)
+    if case.ghost.get("alloc"):
+        # the callee may create abstract objects: the ghost allocation clock moves on (see histlib)
+        from .histlib import call_advances_clock
+        call_advances_clock(ip, st)
     if case.generator:
         # calling a generator function runs nothing; modelled functionally: the iterator's content is the ghost `out`
-        sort = ip.lst_sort(case.yields)
-        out_t = ip.reg.new("out_" + case.simple, sort)
-        ip.assume_wf(st, out_t)
-        env2["out"] = ip.lst_view(out_t)
-        res = ip.new_cell(st, IterCell(ip.lst_view(out_t), I(0), name=None))
+        from .histlib import is_struct_type
+        if getattr(case, "out_def", None):
+            from .histlib import defined_out_view        # the delivered values are a stated function of the arguments
+            oview = defined_out_view(ip, st, case, env2)
+            env2["out"] = oview
+            res = ip.new_cell(st, IterCell(oview, I(0), name=None))
+        elif is_struct_type(case.yields):
+            from .histlib import struct_new, struct_view
+            oview = struct_view(ip, struct_new(ip, st, case.yields, "out_" + case.simple))
+            env2["out"] = oview
+            res = ip.new_cell(st, IterCell(oview, I(0), name=None))
+        else:
+            sort = ip.lst_sort(case.yields)
+            out_t = ip.reg.new("out_" + case.simple, sort)
+            ip.assume_wf(st, out_t)
+            env2["out"] = ip.lst_view(out_t)
+            res = ip.new_cell(st, IterCell(ip.lst_view(out_t), I(0), name=None))
         env2["result"] = res
     elif case.result_alias is not None:
         res = env2[case.result_alias]
+        env2["result"] = res
+    elif getattr(case, "result_ref", None) and isinstance(env2.get(case.result_ref[0]), Ref) \
+            and isinstance(st.heap.get(env2[case.result_ref[0]].cid), ValCell):
+        # the callee returns the very object at a key path inside the dictionary it was given (proved at its exits)
+        from .dicts import path_ref
+        res, _root = path_ref(ip, st, env2, case.result_ref)
         env2["result"] = res
     elif case.result is not None:
         res = ip.make(case.result, "res_" + case.simple, st)
@@ -585,10 +698,60 @@ def apply_contract(ip, st, c, args, kws):
     else:
         res = NONE
         env2["result"] = NONE
+    for cl in case.ensures:
+        bind_identity_clause(ip, st, case, env2, cl, old)
     for cl in case.ensures + case.assume_post:
         st.assume(eval_spec(ip, st, env2, cl, old=old))
     outs.append((st, res))
     return outs
+
+
+def bind_identity_clause(ip, st, case, env, text, old):
+    """caller side of a postcondition `<object>.<field> is <expr>` when the field is in `modifies` and <expr> denotes a heap
+    object of the caller (a parameter, a part of one, old(...)): after the call the field holds THAT object, not the
+    arbitrary new one the havoc of the frame put there (which would make the clause plainly false and the caller's
+    hypotheses contradictory).  Aliasing established by a callee is thereby visible to the caller."""
+    if " implies " in text:
+        return
+    try:
+        node = ip.contracts_parse(text)
+    except SyntaxError:
+        return
+    if not (isinstance(node, ast.Compare) and len(node.ops) == 1 and isinstance(node.ops[0], ast.Is)
+            and isinstance(node.left, ast.Attribute)):
+        return
+    s = spec_state(st, env)
+    ip.spec_mode += 1
+    saved = ip.oldst
+    ip.oldst = old
+    try:
+        try:
+            base = ip.ev1(node.left.value, s)
+            target = ip.ev1(node.comparators[0], s)
+        except Exception:
+            return
+    finally:
+        ip.spec_mode -= 1
+        ip.oldst = saved
+    if not (isinstance(base, Ref) and isinstance(st.heap.get(base.cid), ObjCell) and isinstance(target, Ref) and not target.path
+            and target.cid in st.heap):
+        return
+    modified = False
+    for m in case.modifies:
+        if m == "fs":
+            continue
+        try:
+            kind, b, f = places_of(ip, st, env, m)
+        except Exception:
+            continue
+        if kind == "field" and isinstance(b, Ref) and b.cid == base.cid and f == node.left.attr:
+            modified = True
+    if not modified:
+        return
+    cell = st.heap[base.cid]
+    fields = dict(cell.fields)
+    fields[node.left.attr] = target
+    st.heap[base.cid] = ObjCell(cell.cls, fields)
 
 
 def do_havoc(ip, st, case, env):
@@ -602,9 +765,18 @@ def do_havoc(ip, st, case, env):
             if not (isinstance(base, Ref) and isinstance(st.heap[base.cid], ObjCell)):
                 raise U("modifies %s: not an object field" % m)
             cell = st.heap[base.cid]
+            if getattr(case, "post_class", None) and m.startswith("self."):
+                cell = ObjCell(case.post_class, cell.fields)       # the callee leaves `self` as an instance of this spec
             cur = cell.fields.get(field)
             if cur is None:
                 cs = ip.contracts.classes.get(cell.cls)
+                if (cs is None or field not in cs.fields) and m.startswith("self.") and "self" in case.params:
+                    # the field is declared by the class spec the callee's contract types `self` with
+                    sty = case.params["self"]
+                    if "[" in sty:
+                        cs2 = ip.contracts.classes.get(sty[sty.index("[") + 1:sty.rindex("]")].strip())
+                        if cs2 is not None and field in cs2.fields:
+                            cs = cs2
                 if cs is not None and field in cs.fields:
                     nv = ip.make(cs.fields[field], "%s.%s" % (cell.cls, field), st)
                 else:
@@ -964,12 +1136,27 @@ def _sf_in_loop(ip, e, st):
     return Bool(TRUE if st.notes.get("inloop_%s" % e.args[0].value) else FALSE)
 
 
+def _sf_local(ip, e, st):
+    """local(name): the value the function's local variable `name` holds at the normal exit under consideration
+    (postconditions only; ill-typed -- hence unprovable -- on exits where the local is not bound)"""
+    loc = st.env.get("$locals")
+    a = e.args[0]
+    name = a.id if isinstance(a, ast.Name) else a.value
+    if loc is None or name not in loc.env:
+        raise U("local(%s): not bound at this exit" % name)
+    return loc.env[name]
+
+
 def _sf_is_deep_copy(ip, e, st):
     """is_deep_copy(x): x is an object created during this call by copy.deepcopy (or handed out by a callee that
     documents a deep copy): it shares no mutable object, at any depth, with anything that existed before"""
     v = ip.ev1(e.args[0], st)
     if isinstance(v, Ref):
         return Bool(TRUE if (v.cid in st.notes.get("deep_copies", ()) and v.cid not in ip.entry.heap and not v.path) else FALSE)
+    if isinstance(v, Opaque) and v.sort == "Obj":
+        # an abstract element: made by copy.deepcopy during this call (ghost allocation clock, see histlib)
+        from .histlib import obj_is_deep_copy
+        return Bool(obj_is_deep_copy(ip, st, v))
     return Bool(TRUE if isinstance(v, (Num, Bool, NoneV, Str)) else FALSE)
 
 
@@ -982,5 +1169,17 @@ def _sf_is_iterator(ip, e, st):
 SPEC_FORMS = {"is_iterator": _sf_is_iterator, "is_deep_copy": _sf_is_deep_copy, "in_loop": _sf_in_loop, "made_in_iteration": _sf_made_in_iteration, "is_fresh": _sf_is_fresh, "arith_next": _sf_arith_next, "old": _sf_old, "implies": _sf_implies, "iff": _sf_iff, "pulled": _sf_pulled, "content": _sf_content,
               "rest": _sf_rest}
 SPEC_FORMS.update(_dict_forms())
+SPEC_FORMS["local"] = _sf_local
+
+
+def _sf_yield_count(ip, e, st):
+    """yield_count(): number of values this generator call has yielded so far (tracked across loop cuts, also for
+    yields="Any" where the list `out` itself is not)"""
+    return Num(st.notes.get("yc", I(0)))
+
+
+SPEC_FORMS["yield_count"] = _sf_yield_count
+from .keymap import FORMS as _KM_FORMS
+SPEC_FORMS.update(_KM_FORMS)
 from .lib import FS_FORMS as _FS_FORMS
 SPEC_FORMS.update(_FS_FORMS)
